@@ -253,7 +253,8 @@ def run_shard(shard):
             return type(name, (NumericValue,), {"bank": VB, "locations": tuple(MemoryLocation(a, type_=type_) for a in addrs)})
         decls = [("Contiguous", (0x04, 0x05), MemoryType.NVM_RW), ("LittleEndian", (0x07, 0x06), MemoryType.NVM_RW),
                  ("Gap", (0x09, 0x0B), MemoryType.NVM_RW), ("Reversed3Lockable", (0x12, 0x11, 0x10), MemoryType.NVM_RW_L),
-                 ("Scattered", (0x18, 0x14, 0x16), MemoryType.RAM_RW), ("StartsAtThree", (0x03,), MemoryType.NVM_RW)]
+                 ("Scattered", (0x18, 0x14, 0x16), MemoryType.RAM_RW), ("StartsAtThree", (0x03,), MemoryType.NVM_RW),
+                 ("VendorProtectable", (0x1A, 0x1B), MemoryType.NVM_RW_P)]      # protectable by a vendor-specific mechanism: writable, NOT lockable
         classes = [(n, a, declare("V" + n, a, t), t) for n, a, t in decls]
         for name, addrs, cls, t in classes:
             for fam in ("gear", "device"):
